@@ -779,7 +779,90 @@ def refused_case(ctx, case):
     ctx.label('refused')
 
 
-COMPONENTS = {'history': history_case, 'stalled': stalled_case,
+def status_poller_case(ctx, case):
+    """'After a connection ends ... the same object can connect again,
+    including from inside its own listeners and handlers': the latency
+    callback of a status query is called when that query is over, and a
+    poller re-issues status() from it (rounds times) and finally connects
+    (or: disconnect(), then connect()) to play.  case {version, rounds,
+    then: 'status'|'connect'|'disconnect_connect', hs: bool}"""
+    import json
+    from minecraft.exceptions import InvalidState
+    version, rounds = case['version'], case['rounds']
+    ctx.ev()
+    reply = json.dumps({'version': {'name': 'x', 'protocol': version},
+                        'description': {'text': 'hi'},
+                        'players': {'max': 1, 'online': 0}})
+    srvs = [servers.Server({'version': version, 'status': {'reply': reply}})
+            for _ in range(rounds)]
+    play = servers.Server({'version': version, 'login': [('success',)],
+                           'play': {'bursts': [[('keep_alive',
+                                                 {'keep_alive_id': 9})]],
+                                    'mode': 'reactive',
+                                    'end': 'disconnect'}})
+    final = case['then'] != 'status'
+    world = vnet.World(servers=srvs + ([play] if final else []))
+    log = []
+    with vnet.installed(world):
+        conn, o = servers.make_connection(world, allowed_versions={version})
+
+        def on_ping(latency):
+            log.append(('ping', len(world.links)))
+            try:
+                if len(world.links) < rounds:
+                    conn.status(handle_status=on_status if case.get('hs')
+                                else False, handle_ping=on_ping)
+                elif case['then'] == 'connect':
+                    conn.connect()
+                elif case['then'] == 'disconnect_connect':
+                    conn.disconnect()
+                    conn.connect()
+            except InvalidState as e:
+                log.append(('refused', str(e)))
+            except Exception as e:
+                log.append(('raised', repr(e)))
+
+        def on_status(st_):
+            log.append(('status', len(world.links)))
+        try:
+            conn.status(handle_status=on_status if case.get('hs') else False,
+                        handle_ping=on_ping)
+        except Exception as e:
+            ctx.fail('status_poller', 'S5-status-raised', case, exc=e)
+            return
+        state = world.settle(timeout=30.0)
+    if state == 'timeout':
+        from vlib.core import HarnessError
+        raise HarnessError('C16 status poller did not settle')
+    bad = [x for x in log if x[0] in ('refused', 'raised')]
+    if bad:
+        ctx.fail('status_poller', 'S5-reconnect-from-callback-refused', case,
+                 bad[:2], 'accepted: the status session was over')
+        return
+    if state != 'done':
+        ctx.fail('status_poller', 'S4-thread-not-terminated', case, state)
+        world.kill_all()
+        return
+    want_links = rounds + (1 if final else 0)
+    pings = [x for x in log if x[0] == 'ping']
+    if len(world.links) != want_links or len(pings) != rounds or \
+            any(s_.errors for s_ in srvs) or o.exceptions:
+        ctx.fail('status_poller', 'S5-sessions', case,
+                 (len(world.links), len(pings),
+                  [repr(e[0]) for e in o.exceptions][:2]),
+                 (want_links, rounds, []))
+        return
+    if final and (play.replies != [('keep_alive', 9)] or play.errors):
+        ctx.fail('status_poller', 'S5-session-started-from-callback-'
+                 'did-not-run', case, (play.replies, play.errors[:2]),
+                 [('keep_alive', 9)])
+        return
+    ctx.nt('status_poller', repr(case))
+    ctx.label('status_poller')
+
+
+COMPONENTS = {'status_poller': status_poller_case,
+              'history': history_case, 'stalled': stalled_case,
               'many_reconnects': many_reconnects_case,
               'refused': refused_case}
 
@@ -930,9 +1013,24 @@ def t_refused(ctx):
                         'or not x 4 call sequences')
 
 
+def t_status_poller(ctx):
+    k = 0
+    for v in (757, 340, 47):
+        for rounds in (1, 2, 5):
+            for then in ('status', 'connect', 'disconnect_connect'):
+                k += 1
+                status_poller_case(ctx, {'version': v, 'rounds': rounds,
+                                         'then': then, 'hs': bool(k % 2)})
+    ctx.sample({'version': 340, 'rounds': 2, 'then': 'connect', 'hs': True},
+               'status_poller')
+    ctx.exhaustive_done('status() re-issued / connect() from the latency '
+                        'callback: 3 protocols x 1, 2, 5 rounds x 3 endings')
+
+
 def tasks(tier):
     q = tier == 'quick'
     tl = [('stalled', t_stalled, {}), ('refused', t_refused, {}),
+          ('status_poller', t_status_poller, {}),
           ('many_reconnects', t_many_reconnects,
            dict(n=1100 if q else 3000))]
     for i in range(len(SMALL)):
